@@ -54,6 +54,10 @@ pub struct DestState {
     /// with this head put back
     pub snapshots: Vec<(usize, Vec<u8>)>,
     pub failed: bool,
+    /// absolute position of `data[0]`: a destination that is positioned far into a huge file (beyond
+    /// 4 GiB, say) is modelled by a window that starts here; stores below it are only counted
+    pub origin: u64,
+    pub stores_below_origin: u64,
 }
 
 impl DestState {
@@ -70,6 +74,8 @@ impl DestState {
             record_snapshots: false,
             snapshots: Vec::new(),
             failed: false,
+            origin: 0,
+            stores_below_origin: 0,
         }
     }
     pub fn plain() -> Self {
@@ -84,7 +90,12 @@ impl DestState {
         if buf.is_empty() {
             return;
         }
-        let at = self.pos as usize;
+        if self.pos < self.origin {
+            self.stores_below_origin += 1;
+            self.pos += buf.len() as u64;
+            return;
+        }
+        let at = (self.pos - self.origin) as usize;
         if self.data.len() < at {
             self.data.resize(at, 0);
         }
@@ -93,7 +104,7 @@ impl DestState {
             self.data.resize(end, 0);
         }
         self.data[at..end].copy_from_slice(buf);
-        self.pos = end as u64;
+        self.pos = self.origin + end as u64;
     }
     fn snap(&mut self) {
         if self.record_snapshots {
@@ -175,7 +186,7 @@ impl Seek for DestState {
         let newpos = match to {
             SeekFrom::Start(p) => p as i128,
             SeekFrom::Current(d) => self.pos as i128 + d as i128,
-            SeekFrom::End(d) => self.data.len() as i128 + d as i128,
+            SeekFrom::End(d) => self.origin as i128 + self.data.len() as i128 + d as i128,
         };
         if newpos < 0 {
             return Err(Error::new(ErrorKind::InvalidInput, "seek before start"));
@@ -206,6 +217,15 @@ impl Dest {
     }
     pub fn plain() -> Self {
         Self::new(Vec::new(), 0, Mode::Plain, 0)
+    }
+    /// `initial` sits at absolute position `origin`; `pos` is absolute too
+    pub fn new_at(origin: u64, initial: Vec<u8>, pos: u64, mode: Mode, seed: u64) -> Self {
+        let d = Self::new(initial, pos, mode, seed);
+        d.0.borrow_mut().origin = origin;
+        d
+    }
+    pub fn stores_below_origin(&self) -> u64 {
+        self.0.borrow().stores_below_origin
     }
     pub fn set_fault(&self, at: usize, fault: Fault) {
         let mut s = self.0.borrow_mut();
